@@ -108,3 +108,47 @@ fn c07_net_hostile_used() {
     kani::cover!(len == 11);
     kani::cover!(len > 2000 && id == 2);
 }
+
+// two buffers held by the caller and recycled in reception order: the free list is LIFO, so each buffer comes back
+// under the *other* descriptor and the recorded token must follow
+fn rx_two_body(legacy: bool) {
+    let mut net = mk(legacy);
+    let hdr = if legacy { 10usize } else { 12 };
+    let (ta, tb): (u16, u16) = (kani::any(), kani::any());
+    kani::assume((ta as usize) < Q && (tb as usize) < Q && ta != tb);
+    dev_complete::<Q>(0, ta, (hdr + 1) as u32);
+    dev_complete::<Q>(0, tb, (hdr + 2) as u32);
+    let ra = net.receive().unwrap();
+    let rb = net.receive().unwrap();
+    assert!(ra.idx == ta && rb.idx == tb && ra.packet_len() == 1 && rb.packet_len() == 2, "C16: buffers must be received in the order the device used them");
+    assert!(posted(&net) == Q - 2 && !net.can_recv(), "C16: two buffers owned by the caller");
+    assert!(net.recycle_rx_buffer(ra).is_ok() && net.recycle_rx_buffer(rb).is_ok(), "C16: recycling must succeed");
+    assert!(posted(&net) == Q && raw_rx_queue_used(&net.inner) == Q as u16, "C16: posted buffers must return to the queue size once all buffers are recycled");
+    // every posted buffer is recorded under the token the device will report for it
+    let mut i = 0;
+    while i < Q {
+        assert!(net.rx_buffers[i].as_ref().map(|b| b.idx as usize) == Some(i), "C16: a recycled buffer must be recorded under the token it was re-posted with");
+        i += 1;
+    }
+    // ... so a later completion of either is received, not lost
+    let t2: u16 = if kani::any() { ta } else { tb };
+    dev_complete::<Q>(0, t2, (hdr + 3) as u32);
+    let r3 = net.receive();
+    assert!(r3.is_ok(), "C16: a re-posted buffer must be receivable again (none lost)");
+    let r3 = r3.unwrap();
+    assert!(r3.idx == t2 && r3.packet_len() == 3, "C16: received buffer identity / length after recycling");
+    core::mem::forget(r3);
+    core::mem::forget(net);
+    kani::cover!(ta == 3 && tb == 0);
+    kani::cover!(ta == 1 && tb == 2 && t2 == ta);
+}
+
+// @harness props=C16 tier=quick timeout=1800
+#[kani::proof]
+#[kani::unwind(20)]
+fn c16_rx_buffered_two_modern() { rx_two_body(false) }
+
+// @harness props=C16 tier=thorough timeout=1800
+#[kani::proof]
+#[kani::unwind(20)]
+fn c16_rx_buffered_two_legacy() { rx_two_body(true) }
